@@ -1,0 +1,12 @@
+//go:build verif
+
+// Machine-checked contracts (Gobra-style //@ comments) for the verification harness in /verif.
+// This file contains no code; it is compiled only under the build tag "verif".
+package mempool
+
+// decoding of peer bytes is size-limited; an empty message panics on bz[0], which the connection's receive
+// goroutine recovers from (see the defers obligations in gemmill/p2p)
+//@ func DecodeMessage
+//@   props C18 C08
+//@   aborts when [empty-message-confined-by-recover] len(bz) == 0
+//@   atcall ReadBinary assert [decode-is-size-limited] arg_lmt == maxMempoolMessageSize && arg_lmt > 0
